@@ -237,13 +237,10 @@ def _descent_direction(X, y, w_epoch, Xw_epoch, fit_intercept, grad_ws, datafit,
 
     for cd_iter in range(MAX_CD_ITER):
         for idx, j in enumerate(ws):
-            # skip when X[:, j] == 0
-            if lipschitz_ws[idx] == 0:
-                continue
-
             past_grads[idx] = grad_ws[idx] + X[:, j] @ (raw_hess * X_delta_w_ws)
             old_w_idx = w_ws[idx]
-            stepsize = 1 / lipschitz_ws[idx]
+            # same fallback step as AndersonCD when X[:, j] == 0
+            stepsize = 1 / lipschitz_ws[idx] if lipschitz_ws[idx] != 0 else 1000
 
             w_ws[idx] = penalty.prox_1d(
                 old_w_idx - stepsize * past_grads[idx], stepsize, j)
@@ -307,17 +304,14 @@ def _descent_direction_s(X_data, X_indptr, X_indices, y, w_epoch,
 
     for cd_iter in range(MAX_CD_ITER):
         for idx, j in enumerate(ws):
-            # skip when X[:, j] == 0
-            if lipschitz_ws[idx] == 0:
-                continue
-
             past_grads[idx] = grad_ws[idx]
             # equivalent to cached_grads[idx] += X[:, j] @ (raw_hess * X_delta_w_ws)
             past_grads[idx] += _sparse_weighted_dot(
                 X_data, X_indptr, X_indices, j, X_delta_w_ws, raw_hess)
 
             old_w_idx = w_ws[idx]
-            stepsize = 1 / lipschitz_ws[idx]
+            # same fallback step as AndersonCD when X[:, j] == 0
+            stepsize = 1 / lipschitz_ws[idx] if lipschitz_ws[idx] != 0 else 1000
 
             w_ws[idx] = penalty.prox_1d(
                 old_w_idx - stepsize * past_grads[idx], stepsize, j)
